@@ -55,6 +55,7 @@ func (p *Program) verifyFunc(name string, view string) *FuncResult {
 	}()
 	f := e.newFrame(fn, nil)
 	f.top = true
+	e.topFn = fn
 	if ct != nil {
 		f.noPanic = ct.NoPanic
 		f.npProps = ct.NoPanicP
@@ -114,15 +115,17 @@ func (p *Program) verifyFunc(name string, view string) *FuncResult {
 				continue
 			}
 			for ri, r := range f.rets {
+				e.curBlock = r.block
 				env := &specEnv{f: f, st: r.state, old: f.entry, results: r.results}
 				t := f.specBool(en.Expr, env)
 				name := fmt.Sprintf("%s:ensures:%s", name, clauseName(en))
 				if len(f.rets) > 1 {
 					name += fmt.Sprintf("@ret%d", ri+1)
 				}
-				e.obligeNoAssume("ensures", name, f.clauseProps(en), r.guard, t, p.pos(fn.Pos()), en.Text)
+				e.oblige("ensures", name, f.clauseProps(en), r.guard, t, p.pos(fn.Pos()), en.Text)
 			}
 		}
+		e.curBlock = -1
 		if len(ct.Ensures) > 0 {
 			e.cover(name+":vacuity:return-reachable", ct.Props, retGuard)
 		}
